@@ -36,6 +36,11 @@ fn model(log: &[Rec], setups: &[Setup], preload_empty: bool, m: &mut Mon) {
     let mut expect_report = false;
     let mut record_at_start: Option<(i64, String)> = None;
     let mut reported = 0usize;
+    let mut start_mono: Option<i128> = None;
+    let mut last_read: Option<(i128, i128)> = None;
+    let mut in_reboot_wait = false;
+    let mut missed_consistent_opportunity = false;
+    let mut next_after_report = false;
     let mut passed_first_next = false;
     let mut clean_install_in_inc = false;
     let mut built = false;
@@ -55,17 +60,18 @@ fn model(log: &[Rec], setups: &[Setup], preload_empty: bool, m: &mut Mon) {
     let mut attempt_plan: Option<String> = None;
     let autotick = log.iter().any(|r| matches!(r.ev, Ev::ClockRead { .. }));
 
-    let end_incarnation = |m: &mut Mon, expect_report: bool, record_at_start: &Option<(i64, String)>, reported: usize, start_wall: Option<i128>, passed: bool, clean: bool, durable: &Book, crashed_early: bool| {
+    let end_incarnation = |m: &mut Mon, expect_report: bool, record_at_start: &Option<(i64, String)>, reported: usize, start_wall: Option<i128>, passed: bool, clean: bool, durable: &Book, crashed_early: bool, missed: bool, cleared_judgeable: bool| {
         m.judge("c18-waited-for-reboot-at-most-once", reported <= 1, "", || format!("WaitedForRebootDuration reported {} times by one state machine", reported));
         if !passed || crashed_early {
             return;
         }
         match (expect_report, record_at_start) {
             (true, Some((fin, _))) => {
-                let consistent = start_wall.map(|s| s >= *fin as i128 * 1000).unwrap_or(false);
+                let consistent = start_wall.map(|s| s >= *fin as i128 * 1000).unwrap_or(false) || reported > 0 || missed;
                 if consistent {
-                    m.judge("c18-waited-for-reboot-reported-once", reported == 1, "missing", || "state machine started on the target version with consistent clocks did not report the waited-for-reboot duration".into());
-                    if !clean {
+                    m.judge("c18-waited-for-reboot-reported-once", reported == 1 && !missed, "missing", || "state machine started on the target version passed a loop iteration with consistent clocks without reporting the waited-for-reboot duration".into());
+                    // (a crash right after the metric, before the clearing commit, is not decided by the statement)
+                    if !clean && cleared_judgeable {
                         m.judge("c18-record-cleared-after-report", durable.finish_us.is_none() && durable.target.is_none(), "", || format!("after the report the record is still committed: {:?}", durable));
                     }
                 } else {
@@ -92,6 +98,10 @@ fn model(log: &[Rec], setups: &[Setup], preload_empty: bool, m: &mut Mon) {
             Ev::Built => {
                 built = true;
                 start_wall = None;
+                start_mono = None;
+                in_reboot_wait = false;
+                missed_consistent_opportunity = false;
+                next_after_report = false;
                 record_at_start = match (&durable.finish_us, &durable.target) {
                     (Some(f), Some(t)) => Some((*f, t.clone())),
                     _ => None,
@@ -101,23 +111,45 @@ fn model(log: &[Rec], setups: &[Setup], preload_empty: bool, m: &mut Mon) {
             Ev::PollStart => {
                 if built && start_wall.is_none() && !autotick {
                     start_wall = Some(r.wall);
+                    start_mono = Some(r.mono);
                 }
             }
-            Ev::ClockRead { wall, .. } => {
+            Ev::ClockRead { wall, mono } => {
                 if built && start_wall.is_none() {
                     // the first clock read of run() is state_machine_start_monotonic_time
                     start_wall = Some(*wall);
+                    start_mono = Some(*mono);
                 }
+                last_read = Some((*wall, *mono));
                 last_read_wall = Some(*wall);
                 if await_finish_read {
                     finish = Some(*wall);
                     await_finish_read = false;
                 }
             }
-            Ev::PolicyNext { .. } => passed_first_next = true,
+            Ev::Taken(EvSnap::State(StateSnap::WaitingForReboot)) => in_reboot_wait = true,
+            Ev::Taken(EvSnap::State(StateSnap::Idle)) => in_reboot_wait = false,
+            Ev::PolicyNext { .. } => {
+                passed_first_next = true;
+                if reported > 0 {
+                    next_after_report = true;
+                }
+                // top of a main-loop iteration: a report opportunity has just passed
+                if !in_reboot_wait && expect_report && reported == 0 {
+                    if let (Some((fin, _)), Some(sm)) = (&record_at_start, start_mono) {
+                        let (w, mo) = (r.wall, r.mono);
+                        let since_finish = w - *fin as i128 * 1000;
+                        let since_start = mo - sm;
+                        // clearly consistent (well away from the boundary): the report was due
+                        if since_finish > 1_000_000_000 && since_finish - since_start > 1_000_000_000 {
+                            missed_consistent_opportunity = true;
+                        }
+                    }
+                }
+            }
             Ev::Restart => {
                 let crashed_early = !passed_first_next;
-                end_incarnation(m, expect_report, &record_at_start, reported, start_wall, passed_first_next, clean_install_in_inc, &durable, crashed_early);
+                end_incarnation(m, expect_report, &record_at_start, reported, start_wall, passed_first_next, clean_install_in_inc, &durable, crashed_early, missed_consistent_opportunity, next_after_report);
                 mem = durable.clone();
                 inc += 1;
                 let s = &setups[inc.min(setups.len() - 1)];
@@ -250,8 +282,11 @@ fn model(log: &[Rec], setups: &[Setup], preload_empty: bool, m: &mut Mon) {
             }
             Ev::Metric(MetricSnap::WaitedForReboot(d)) => {
                 reported += 1;
-                if let (Some((fin, _)), Some(sw)) = (&record_at_start, start_wall) {
-                    let want = sw - *fin as i128 * 1000;
+                if let (Some((fin, _)), Some(sw), Some(sm)) = (&record_at_start, start_wall, start_mono) {
+                    // (wall now - finish) - (mono now - mono at start): finish -> start of this state
+                    // machine, whatever happened to the clocks or however long it took to get here
+                    let (nw, nm) = if autotick { last_read.unwrap_or((r.wall, r.mono)) } else { (r.wall, r.mono) };
+                    let want = (nw - *fin as i128 * 1000) - (nm - sm);
                     m.judge("c18-waited-for-reboot-value", expect_report && want >= 0 && *d as i128 == want, if !expect_report { "unexpected" } else { "value" }, || {
                         format!("WaitedForRebootDuration({} ns) at seq {}; state machine started at wall {} ns, finish time {} us => expected {} ns (expected at all: {})", d, r.seq, sw, fin, want, expect_report)
                     });
@@ -264,7 +299,7 @@ fn model(log: &[Rec], setups: &[Setup], preload_empty: bool, m: &mut Mon) {
         let _ = i;
     }
     let crashed_early = !passed_first_next;
-    end_incarnation(m, expect_report, &record_at_start, reported, start_wall, passed_first_next, clean_install_in_inc, &durable, crashed_early);
+    end_incarnation(m, expect_report, &record_at_start, reported, start_wall, passed_first_next, clean_install_in_inc, &durable, crashed_early, missed_consistent_opportunity, next_after_report);
 }
 
 fn mem_target_before(mem: &Book) -> Option<String> {
@@ -427,7 +462,23 @@ pub fn run(args: &Args, r: &mut Report) {
             let stop = inc.stop_idle;
             // run one extra policy question past the last Idle so that a pending report / clearing happens
             let base_next = lock(&w).n_next;
-            let _ = dd.run(Sched::Fifo, &mut rng, |d| d.count_state(&StateSnap::Idle) >= stop && lock(&d.w).n_next > base_next + stop);
+            // a wall clock that was set back may be corrected while the machine is running
+            let mut correct_at: Option<usize> = if inc.jump.0 < 0 && rng.bool() { Some(base_next + 1 + rng.usize(2)) } else { None };
+            let _ = dd.run(Sched::Fifo, &mut rng, |d| {
+                let mut g = lock(&d.w);
+                if let Some(at) = correct_at {
+                    if g.n_next >= at {
+                        g.wall_ns += 3_600_000_000_000i128 * 24 + 300_000_000_000;
+                        g.mono_ns += 300_000_000_000;
+                        let (wall, mono) = (g.wall_ns, g.mono_ns);
+                        g.push(Ev::Clock { wall, mono });
+                        correct_at = None;
+                    }
+                }
+                let n_next = g.n_next;
+                drop(g);
+                d.count_state(&StateSnap::Idle) >= stop && n_next > base_next + stop
+            });
             if dd.panicked.is_some() {
                 panicked = dd.panicked.clone();
                 d = Some(dd);
